@@ -3,9 +3,11 @@
 # Confirms in a scratch worktree (outside /repo and /verif): demo fails with the patch, passes without,
 # and the crate's existing tests pass with the patch.  Writes <seeded dir>/confirm.log
 set -u
+# env: BASE=<commit the patch applies to> (default: pinned snapshot), SUITE=<crate whose existing tests must pass> (default: demo crate)
 dir="$(cd "$1" && pwd)"; crate="$2"; shift 2
+base="${BASE:-8fbdad5}"; suite="${SUITE:-$crate}"
 wt=/tmp/wt_confirm_$$
-git -C /repo worktree add -q --detach "$wt" 8fbdad5 || exit 2
+git -C /repo worktree add -q --detach "$wt" "$base" || exit 2
 log="$dir/confirm.log"; : > "$log"
 cd "$wt"
 mkdir -p "$crate/tests"
@@ -17,7 +19,7 @@ git apply "$dir/patch.diff" || { echo "patch does not apply" >> "$log"; }
 echo "### demo WITH patch (expect fail)" >> "$log"
 CARGO_TARGET_DIR=/tmp/seeded_target cargo test -p "$crate" --offline --test "$name" "$@" >> "$log" 2>&1; b=$?
 rm "$crate/tests/$name.rs"
-echo "### existing tests of $crate WITH patch (expect pass)" >> "$log"
-CARGO_TARGET_DIR=/tmp/seeded_target cargo test -p "$crate" --offline "$@" 2>&1 | grep -E "^test result|FAILED|failed" >> "$log"; c=${PIPESTATUS[0]}
+echo "### existing tests of $suite WITH patch (expect pass)" >> "$log"
+CARGO_TARGET_DIR=/tmp/seeded_target cargo test -p "$suite" --offline 2>&1 | grep -E "^test result|FAILED|failed" >> "$log"; c=${PIPESTATUS[0]}
 cd /; git -C /repo worktree remove --force "$wt"
 echo "RESULT demo_without=$a demo_with=$b suite_with=$c" | tee -a "$log"
